@@ -297,6 +297,9 @@ class TrigTime:
                 #
                 new_vars = State.notify_var_get(state_trig_ident, {})
                 state_trig_ok = await state_trig_eval.eval(new_vars)
+                if state_hold_false is not None and state_check_now and not state_trig_ok:
+                    # the expression is false now: the false hold time starts
+                    state_false_time = time.monotonic()
                 if state_hold_false is not None and not state_check_now:
                     #
                     # if state_trig_ok we wait until it is false;
